@@ -226,6 +226,31 @@ def _same(a, b):
         return a == b
 
 
+PUT_HELPER = "toasty.par_util.put_checking_workers"
+JOIN_HELPER = "toasty.par_util.join_workers"
+CHECK_HELPER = "toasty.par_util.ensure_workers_ok"
+
+
+def _tag(e):
+    if e[0] == "call" and e[1] == JOIN_HELPER:
+        return "join_workers"
+    if e[0] == "call" and e[1] == PUT_HELPER:
+        return "q_put"
+    return e[0]
+
+
+def _puts_of(seg):
+    """Completed puts of a trace segment as ('q_put', queue, item): direct queue.put calls and
+    calls of par_util.put_checking_workers (whose contract guarantees exactly one completed put)."""
+    out = []
+    for e in seg:
+        if e[0] == "q_put":
+            out.append(e)
+        elif e[0] == "call" and e[1] == PUT_HELPER:
+            out.append(("q_put", e[2]["queue"], e[2]["item"], e[2]))
+    return out
+
+
 def producer_trace(worker_qualname, worker_args, item_of, item_guard=None, loop_workers=0, loop_items=1, loop_join=2,
                    queue_name="ready_queue", event_name="done_event"):
     """on_path hook factory for the four producers.
@@ -262,7 +287,7 @@ def producer_trace(worker_qualname, worker_args, item_of, item_guard=None, loop_
                 continue
             it = ev[si][3]
             loop_item = path.loop_items.get((loop_items, si)) if hasattr(path, "loop_items") else None
-            puts = [e for e in seg if e[0] == "q_put"]
+            puts = _puts_of(seg)
             item = fr.last_loop_item.get(loop_items)
             guard = item_guard(item) if item_guard else True
             want = item_of(item)
@@ -274,15 +299,16 @@ def producer_trace(worker_qualname, worker_args, item_of, item_guard=None, loop_
                 path.oblige(m.oblname("producer/only_serial_items_are_enqueued"), guard, kind="trace", assume_after=False)
         # (P3) shutdown order on the normal path: close, join_thread, set, then join every worker
         if outcome == "return" and any(e[0] == "loop_summary" and e[1] == loop_items for e in ev):
-            names = [e[0] for e in ev]
-            after = names[max(i for i, e in enumerate(ev) if e[0] == "loop_summary" and e[1] == loop_items):]
-            seq = [n for n in after if n in ("q_close", "q_join_thread", "ev_set", "loop_summary", "q_put", "proc_join")]
-            want_seq = ["loop_summary", "q_close", "q_join_thread", "ev_set", "loop_summary"]
+            after = ev[max(i for i, e in enumerate(ev) if e[0] == "loop_summary" and e[1] == loop_items):]
+            seq = [_tag(e) for e in after]
+            seq = [n for n in seq if n in ("q_close", "q_join_thread", "ev_set", "loop_summary", "q_put", "proc_join", "join_workers")]
+            want_seq = ["loop_summary", "q_close", "q_join_thread", "ev_set", "join_workers"]
             path.oblige(m.oblname("producer/shutdown_order_close_flush_flag_join"), z3.BoolVal(seq == want_seq),
                         kind="trace", assume_after=False)
-            joins = [e for e in ev if e[0] == "loop_summary" and e[1] == loop_join]
-            path.oblige(m.oblname("producer/joins_the_recorded_workers"),
-                        z3.BoolVal(len(joins) == 1 and isinstance(joins[0][2], Opaque) and joins[0][2].kind == "proclist"),
+            joins = [e for e in after if _tag(e) == "join_workers"]
+            wl = env.lookup("workers") if env.has("workers") else None
+            path.oblige(m.oblname("producer/joins_the_recorded_workers_and_checks_their_exit_codes"),
+                        z3.BoolVal(len(joins) == 1 and _same(joins[0][2].get("workers"), wl)),
                         kind="trace", assume_after=False)
         for si in [i for i, e in enumerate(ev) if e[0] == "loop_iter" and e[1] == loop_join]:
             seg = ev[si + 1:]
@@ -336,7 +362,7 @@ def _(c):
     c.local(workers="emptylist => proclist", ready_queue="opaque:queue => queue[args2]", done_event="opaque:event => event")
     c.loop(0, summarise="stateless")
     c.loop(1, summarise="stateless")
-    c.loop(2, summarise="stateless")
+    c.may_raise("WorkerFailedError", "a failed worker makes the stage fail visibly")
     c.on_path(producer_trace("toasty.pyramid._mp_visit_worker",
                              lambda env: (env.lookup("ready_queue"), env.lookup("done_event"), env.lookup("callback")),
                              item_of=lambda it: (it[0], it[1]), item_guard=lambda it: it[2]))
@@ -385,6 +411,7 @@ def _(c):
     c.self_type("Pyramid", **PYRAMID_FIELDS)
     c.args(callback="callback", parallel="int", cli_progress="bool")
     c.may_raise("CallbackError", "serial mode propagates callback errors")
+    c.may_raise("WorkerFailedError", "parallel mode reports failed workers")
     c.on_path(dispatch_trace("toasty.pyramid.Pyramid._visit_leaves_serial", "toasty.pyramid.Pyramid._visit_leaves_parallel",
                              ["callback"]))
 
@@ -429,7 +456,7 @@ def _(c):
     c.local(workers="emptylist => proclist", queue="opaque:queue => queue[Pos]", done_event="opaque:event => event")
     c.loop(0, summarise="stateless")
     c.loop(1, summarise="stateless")
-    c.loop(2, summarise="stateless")
+    c.may_raise("WorkerFailedError", "a failed worker makes the stage fail visibly")
     c.on_path(producer_trace("toasty.transform._transform_mp_worker",
                              lambda env: (env.lookup("queue"), env.lookup("done_event"), env.lookup("pio_in"),
                                           env.lookup("pio_out"), env.lookup("make_buf"), env.lookup("do_one")),
@@ -443,6 +470,7 @@ def _(c):
     c.requires("depth >= 0")
     c.loop(0, summarise="stateless")
     c.may_raise("CallbackError", "serial mode propagates errors of the per-tile function")
+    c.may_raise("WorkerFailedError", "parallel mode reports failed workers")
     c.on_path(serial_trace(0, lambda it: ("*", it, "*", "*"), item_guard=None))
     c.on_path(same_source(0, _gen_pos_of_depth))
 
@@ -491,4 +519,82 @@ def _(c):
     c.args(callback="callback", parallel="int", cli_progress="bool")
     c.requires("self.depth >= 0 and self._apex.n >= 0 and self._apex.x >= 0 and self._apex.y >= 0 and self._apex.n <= self.depth")
     c.may_raise("CallbackError", "serial mode propagates callback errors")
+    c.may_raise("WorkerFailedError", "parallel mode reports failed workers")
     c.on_path(dispatch_trace("toasty.pyramid.Pyramid._walk_serial", "toasty.pyramid.Pyramid._walk_parallel", ["callback"]))
+
+
+# ---------------------------------------------------------------------------
+# par_util helpers that make worker failures visible in the parent (C19)
+
+def ensure_ok_trace(m, path, fr, env, outcome, value, exc):
+    ev = path.events
+    for si in [i for i, e in enumerate(ev) if e[0] == "loop_iter" and e[1] == 0]:
+        seg = ev[si + 1:]
+        reads = [e for e in seg if e[0] == "exitcode_read"]
+        ended = any(e[0] == "loop_iter_end" and e[1] == 0 for e in seg)
+        if not reads:
+            path.oblige(m.oblname("reads_the_exit_code_of_every_worker"), z3.BoolVal(False), kind="trace", assume_after=False)
+            continue
+        ec = reads[0][2]
+        failed = z3.And(ec.present, ec.value != 0)
+        if ended:
+            path.oblige(m.oblname("continues_only_past_workers_that_did_not_fail"), z3.Not(failed), kind="trace", assume_after=False)
+        elif outcome == "raise":
+            path.oblige(m.oblname("raises_only_for_a_worker_that_failed"), failed, kind="trace", assume_after=False)
+            de = fr.entry_env.lookup("done_event")
+            if de is not None:
+                sets = [e for e in seg if e[0] == "ev_set" and _is(e[1], de)]
+                path.oblige(m.oblname("tells_the_other_workers_to_stop_before_raising"), z3.BoolVal(len(sets) == 1), kind="trace", assume_after=False)
+
+
+@contract("toasty.par_util.ensure_workers_ok")
+def _(c):
+    c.cases({"done_event": "type:event"}, {"done_event": None})
+    c.args(workers="proclist")
+    c.loop(0, summarise="stateless")
+    c.may_raise("WorkerFailedError", "raised iff some worker has ended with a non-zero exit code")
+    c.on_path(ensure_ok_trace)
+
+
+def put_checking_trace(m, path, fr, env, outcome, value, exc):
+    ev = path.events
+    q, item = fr.entry_env.lookup("queue"), fr.entry_env.lookup("item")
+    puts = [e for e in ev if e[0] == "q_put"]
+    if outcome == "return":
+        ok = len(puts) == 1 and _is(puts[0][1], q) and _same(puts[0][2], item)
+        path.oblige(m.oblname("returns_after_exactly_one_completed_put_of_the_item"), z3.BoolVal(bool(ok)), kind="trace", assume_after=False)
+    if outcome == "raise":
+        path.oblige(m.oblname("no_put_when_it_raises"), z3.BoolVal(not puts), kind="trace", assume_after=False)
+    for si in [i for i, e in enumerate(ev) if e[0] == "loop_iter" and e[1] == 0]:
+        seg = ev[si + 1:]
+        if any(e[0] == "q_put_full" for e in seg) and any(e[0] == "loop_iter_end" and e[1] == 0 for e in seg):
+            chk = [e for e in seg if e[0] == "call" and e[1] == CHECK_HELPER]
+            ok = len(chk) == 1 and _same(chk[0][2].get("workers"), fr.entry_env.lookup("workers"))
+            path.oblige(m.oblname("a_full_queue_makes_it_check_the_workers_before_retrying"), z3.BoolVal(bool(ok)), kind="trace", assume_after=False)
+
+
+@contract("toasty.par_util.put_checking_workers")
+def _(c):
+    c.args(queue="queue[Pos]", item="Pos", workers="proclist", done_event="event")
+    c.loop(0, invariant=[("true", "True")])
+    c.may_raise("WorkerFailedError", "propagated from ensure_workers_ok")
+    c.on_path(put_checking_trace)
+
+
+def join_workers_trace(m, path, fr, env, outcome, value, exc):
+    ev = path.events
+    if outcome == "return":
+        seq = [_t for _t in [("loop_summary" if (e[0] == "loop_summary" and e[1] == 0) else ("check" if (e[0] == "call" and e[1] == CHECK_HELPER) else None)) for e in ev] if _t]
+        path.oblige(m.oblname("joins_every_worker_then_checks_exit_codes"), z3.BoolVal(seq == ["loop_summary", "check"]), kind="trace", assume_after=False)
+    for si in [i for i, e in enumerate(ev) if e[0] == "loop_iter" and e[1] == 0]:
+        seg = ev[si + 1:]
+        if any(e[0] == "loop_iter_end" and e[1] == 0 for e in seg):
+            path.oblige(m.oblname("each_worker_is_joined"), z3.BoolVal(len([e for e in seg if e[0] == "proc_join"]) == 1), kind="trace", assume_after=False)
+
+
+@contract("toasty.par_util.join_workers")
+def _(c):
+    c.args(workers="proclist")
+    c.loop(0, summarise="stateless")
+    c.may_raise("WorkerFailedError", "raised after all joins iff some worker failed (contract of ensure_workers_ok)")
+    c.on_path(join_workers_trace)
